@@ -13,7 +13,10 @@ CONSTANTS M,            \* tokens in the serialised response
           MaxFail,      \* how many attempts the proxy may fail
           StaleReader,  \* TRUE: a failed attempt's reader parked in the source read survives the retry
           LockStep,     \* TRUE: producer emits token k+1 only after the proxy observed token k (C05)
-          BufferAll     \* deviation switch: the serialiser waits for the whole body before uploading
+          BufferAll,    \* deviation switch: the serialiser waits for the whole body before uploading
+          Timers        \* deviations that turn a quiet period into an event (the code has none: {})
+                        \*   "release-replay": the replay buffer is given back after a while; Seek(0) still succeeds
+                        \*   "idle-cut": the pipe is closed when the handler has been quiet for a while
 
 EOF == 0
 Att == 1..MaxAttempts
@@ -142,8 +145,18 @@ Retry ==              \* sees the failure, closes the response body (conn dies),
         /\ post' = IF canRetry THEN post ELSE "fail"
   /\ UNCHANGED <<made, nextTok, closed, slot, buf, wh, held, got, wire, reply, fails, producerStuck>>
 
+TimerReleasesBuffer ==   \* (deviation) the replay buffer is released some time after the first byte: it looks like a fresh one
+  /\ "release-replay" \in Timers /\ post = "doing" /\ wh > 0
+  /\ buf' = <<>> /\ wh' = 0 /\ rh' = 0
+  /\ UNCHANGED <<made, nextTok, closed, slot, rd, held, got, conn, wire, reply, cur, post, fails, producerStuck>>
+
+TimerCutsStream ==       \* (deviation) a watchdog closes the pipe while the handler is merely quiet between two pieces
+  /\ "idle-cut" \in Timers /\ post = "doing" /\ ~closed /\ slot = 0 /\ nextTok > 1 /\ nextTok <= M
+  /\ closed' = TRUE /\ made' = M /\ nextTok' = M + 1     \* nothing produced later is relayed any more
+  /\ UNCHANGED <<slot, buf, wh, rh, rd, held, got, conn, wire, reply, cur, post, fails, producerStuck>>
+
 Next ==
-  \/ Produce \/ Hand \/ ClosePipe \/ ProducerReleased \/ Retry
+  \/ Produce \/ Hand \/ ClosePipe \/ ProducerReleased \/ Retry \/ TimerReleasesBuffer \/ TimerCutsStream
   \/ \E a \in Att : ReadA(a) \/ ReadB(a) \/ ReadC(a) \/ StaleIdleDies(a) \/ ProxyFail(a) \/ ProxyAck(a)
 
 Fair == /\ WF_vars(Produce) /\ WF_vars(Hand) /\ WF_vars(ClosePipe) /\ WF_vars(ProducerReleased) /\ WF_vars(Retry)
